@@ -139,63 +139,107 @@ Inductive action :=
 | AAsk (k : query) (expect : Z * Z * Z)
 | APlay (id : N) (now : num) (a : quantarg)   (* Routine(id).play(clock, a) / clock.play(.., a) *)
 | APlayNextBar (id : N) (now : num)
-| AWake (id : N) (eb es : Z * Z * Z)          (* routine id woke up: clock.beats, clock.seconds *)
+| AWake (id : N) (eb es : Z * Z * Z)          (* routine id woke up: its clock's beats, seconds *)
 | AYield (id : N) (d : num)                   (* the woken routine id yielded d: due d beats after its wake-up beat *)
-| AAdopt (id : N) (b x : num).                (* a routine observed running at beat b, second x (RT: played from the main thread) *)
+| AAdopt (id : N) (b x : num)                 (* a routine observed running at beat b, second x (RT: played from the main thread) *)
+| ANew (now t b : num) (xo : option num) (e0 : list (Z * Z * Z))   (* one more TempoClock(t, b, xo), appended *)
+| AOn (c : nat) (a : action).                 (* the action is made on clock number c (default: clock 0) *)
 
-Fixpoint find_pend (id : N) (l : list (N * pend)) : option pend :=
+(* the clock a routine was played on and its pending task *)
+Definition entry : Type := N * (nat * pend).
+Fixpoint find_pend (id : N) (l : list entry) : option (nat * pend) :=
   match l with
   | [] => None
   | (j, p) :: r => if N.eqb id j then Some p else find_pend id r
   end.
-Definition retime_all (s : clockstate) (l : list (N * pend)) : list (N * pend) :=
-  map (fun jp => (fst jp, retime s (snd jp))) l.
-
-(* None iff every recorded observation equals what the model computes, else the index of the
-   first one that does not (0 = the constructor, i+1 = action i); a raising setter leaves the
-   state as it was (all raises of these methods precede their first assignment) *)
-(* rt = true: the session ran on a real clock thread, whose queue is keyed by beats: a pending task always
-   follows the current map, whatever the NRT branch of the setters does *)
-Fixpoint replay_bad (rt : bool) (s : clockstate) (pl : list (N * pend)) (l : list action) (i : N) : option N :=
-  match l with
-  | [] => None
-  | ASet o e :: r =>
-      match step s o with
-      | Some s' => if canon_list_eqb (canon_state s') e
-                   then replay_bad rt s' (if rt || op_retimes o then retime_all s' pl else pl) r (N.succ i) else Some i
-      | None => Some i
-      end
-  | ARaise o e :: r =>
-      match step s o with
-      | Some _ => Some i
-      | None => if canon_list_eqb (canon_state s) e then replay_bad rt s pl r (N.succ i) else Some i
-      end
-  | AAsk k e :: r => if canon_eqb (canon (eval s k)) e then replay_bad rt s pl r (N.succ i) else Some i
-  | APlay id now a :: r => replay_bad rt s ((id, sched_abs_nrt s (play_beat s now a)) :: pl) r (N.succ i)
-  | APlayNextBar id now :: r => replay_bad rt s ((id, sched_abs_nrt s (py_play_next_bar s now)) :: pl) r (N.succ i)
-  | AWake id eb es :: r =>
-      match find_pend id pl with
-      | Some p => if canon_eqb (canon (wake_beat_of s p)) eb && canon_eqb (canon (p_secs p)) es
-                  then replay_bad rt s ((id, mkPend (wake_beat_of s p) (p_secs p)) :: pl) r (N.succ i) else Some i
-      | None => Some i
-      end
-  | AYield id d :: r =>
-      match find_pend id pl with
-      | Some p => replay_bad rt s ((id, resched s (p_beats p) d) :: pl) r (N.succ i)
-      | None => Some i
-      end
-  | AAdopt id b x :: r => replay_bad rt s ((id, mkPend b x) :: pl) r (N.succ i)
+(* ClockScheduler.retime(clock): the tasks OF THAT CLOCK follow its new map; tasks of other clocks are not touched *)
+Definition retime_on (c : nat) (s : clockstate) (l : list entry) : list entry :=
+  map (fun e : entry => if Nat.eqb (fst (snd e)) c then (fst e, (c, retime s (snd (snd e)))) else e) l.
+Fixpoint set_clock (n : nat) (s : clockstate) (l : list clockstate) : list clockstate :=
+  match l, n with
+  | [], _ => []
+  | _ :: r, O => s :: r
+  | x :: r, S m => x :: set_clock m s r
   end.
 
-(* a session starts with the constructor: TempoClock(tempo, beats, seconds) at thread time now *)
+(* a clock is made by the constructor: TempoClock(tempo, beats, seconds) at thread time now *)
 Definition construct (now t b : num) (xo : option num) : option clockstate :=
   match xo with
   | Some x => py_init clock_blank now t b x        (* TempoClock(t, b, x), x any number, 0 included *)
   | None => py_init_now clock_blank now t b        (* TempoClock(t, b): seconds is None *)
   end.
+
+(* one observation on clock c; None = the model disagrees with it.
+   rt = true: the session ran on real clock threads, whose queues are keyed by beats: a pending task always
+   follows the current map of ITS clock, whatever the NRT branch of the setters does *)
+Definition do_action (rt : bool) (cs : list clockstate) (pl : list entry) (c : nat) (a : action)
+  : option (list clockstate * list entry) :=
+  match a with
+  | ANew now t b xo e0 =>
+      match strict (construct now t b xo) with
+      | Some s => if canon_list_eqb (canon_state s) e0 then Some (cs ++ [s], pl) else None
+      | None => None
+      end
+  | AOn _ _ => None
+  | AAdopt id b x => Some (cs, (id, (c, mkPend b x)) :: pl)
+  | AWake id eb es =>
+      match find_pend id pl with
+      | Some (k, p) =>
+          match nth_error cs k with
+          | Some s => if canon_eqb (canon (wake_beat_of s p)) eb && canon_eqb (canon (p_secs p)) es
+                      then Some (cs, (id, (k, mkPend (wake_beat_of s p) (p_secs p))) :: pl) else None
+          | None => None
+          end
+      | None => None
+      end
+  | AYield id d =>
+      match find_pend id pl with
+      | Some (k, p) => match nth_error cs k with
+                       | Some s => Some (cs, (id, (k, resched s (p_beats p) d)) :: pl)
+                       | None => None
+                       end
+      | None => None
+      end
+  | _ =>
+      match nth_error cs c with
+      | None => None
+      | Some s =>
+          match a with
+          | ASet o e =>
+              match step s o with
+              | Some s' => if canon_list_eqb (canon_state s') e
+                           then Some (set_clock c s' cs, if rt || op_retimes o then retime_on c s' pl else pl) else None
+              | None => None
+              end
+          | ARaise o e =>
+              match step s o with
+              | Some _ => None
+              | None => if canon_list_eqb (canon_state s) e then Some (cs, pl) else None
+              end
+          | AAsk k e => if canon_eqb (canon (eval s k)) e then Some (cs, pl) else None
+          | APlay id now q => Some (cs, (id, (c, sched_abs_nrt s (play_beat s now q))) :: pl)
+          | APlayNextBar id now => Some (cs, (id, (c, sched_abs_nrt s (py_play_next_bar s now))) :: pl)
+          | _ => None
+          end
+      end
+  end.
+
+(* None iff every recorded observation equals what the model computes, else the index of the
+   first one that does not (0 = the constructor, i+1 = action i); a raising change leaves the clock as it was *)
+Fixpoint replay_bad (rt : bool) (cs : list clockstate) (pl : list entry) (l : list action) (i : N) : option N :=
+  match l with
+  | [] => None
+  | a :: r =>
+      match (match a with AOn c a' => do_action rt cs pl c a' | _ => do_action rt cs pl 0 a end) with
+      | Some (cs', pl') => replay_bad rt cs' pl' r (N.succ i)
+      | None => Some i
+      end
+  end.
+
+(* a session starts with the constructor of clock 0 *)
 Definition session_bad (rt : bool) (now t b : num) (xo : option num) (e0 : list (Z * Z * Z)) (l : list action) : option N :=
   match strict (construct now t b xo) with
-  | Some s => if canon_list_eqb (canon_state s) e0 then replay_bad rt s [] l 1%N else Some 0%N
+  | Some s => if canon_list_eqb (canon_state s) e0 then replay_bad rt [s] [] l 1%N else Some 0%N
   | None => match e0 with [] => None | _ => Some 0%N end
   end.
 Definition session_ok (rt : bool) (now t b : num) (xo : option num) (e0 : list (Z * Z * Z)) (l : list action) : bool :=
